@@ -180,6 +180,32 @@ def run(ctx):
                 else:
                     ctx.violated(r3, pre, a, f"`{a}` is not the tensor form of `{b}`", node=pre.node)
 
+    # main model: Poisson(observed | expected rates), evaluated on the main data
+    mmc = repo.cls(PDF, "_MainModel")
+    try:
+        ext = ext3(None)
+        ext["expected_data"] = lambda a, k: Poly.atom(f"RATES<{to_poly(a[0])}>")
+        v = Interp({"pars": Poly.atom("PARS"), "prob": Obj("prob")}, {}, {}, cls_name="_MainModel", externals=ext).run(A.strip_docstring(mmc.methods["make_pdf"].node.body))
+        if getattr(v, "name", None) == "Indep[Poisson[RATES<PARS>]]":
+            ctx.holds(r3, f"{PDF}::_MainModel.make_pdf", "Independent(Poisson(expected_data(pars)))")
+        else:
+            ctx.violated(r3, mmc.methods["make_pdf"], "main pdf", "the main term is not a product of Poisson(n_b | expected rate_b(pars))", expected="Indep[Poisson[RATES<PARS>]]", found=str(getattr(v, "name", v)))
+        lgm = mmc.methods["logpdf"]
+        lv = Interp({"maindata": Poly.atom("MAIN"), "pars": Poly.atom("PARS")}, {}, {}, cls_name="_MainModel", externals={"make_pdf": lambda a, k: Obj(f"PDF<{to_poly(a[0])}>")}).run(A.strip_docstring(lgm.node.body))
+        if to_poly(lv) == fn("log_prob", Poly.atom("PDF<PARS>"), Poly.atom("MAIN")):
+            ctx.holds(r3, f"{PDF}::_MainModel.logpdf", "make_pdf(pars).log_prob(maindata)")
+        else:
+            ctx.violated(r3, lgm, "main logpdf", "the main log-density is not make_pdf(pars).log_prob(maindata)", found=str(lv))
+        ml = repo.method(PDF, "Model", "logpdf")
+        calls = [c for c in A.calls_in(ml.node) if A.call_attr(c) == "log_prob"]
+        okm = calls and isinstance(calls[0].func.value, ast.Call) and A.call_attr(calls[0].func.value) == "make_pdf" and A.dotted(calls[0].func.value.args[0]) == "pars" and A.dotted(calls[0].args[0]) == "data"
+        if okm:
+            ctx.holds(r3, f"{PDF}::Model.logpdf", "make_pdf(pars).log_prob(data)")
+        else:
+            ctx.violated(r3, ml, "Model.logpdf", "the full log-density is not make_pdf(pars).log_prob(data) (parameters and data exchanged or another pdf evaluated)", node=ml.node)
+    except (Undecided, IndexError) as e:
+        ctx.unrecognised(r3, mmc, "_MainModel", f"not interpretable: {e}")
+
     # ---------------------------------------------------------------- R4
     model = repo.cls(PDF, "Model")
     cm = repo.cls(PDF, "_ConstraintModel")
